@@ -620,6 +620,11 @@ pub enum PStep {
     Check(Claim),
     /// register a harness validator on the live parser (validate_claim, or extend_validation_claims on GenericParser)
     Validate(VSpec),
+    /// register (or replace) SEVERAL expected claims at once: ONE extend_check_claims call on GenericParser (check_claim calls
+    /// on PasetoParser, which has no such method)
+    CheckMany(Vec<Claim>),
+    /// register SEVERAL harness validators at once (the ExtendOnly ones go into ONE extend_validation_claims call)
+    ValidateMany(Vec<VSpec>),
     /// while this parser object stays alive, ANOTHER parser object (any protocol, any layer) is created, configured, used
     /// and dropped on the same thread; its outcomes go to `nested_outs_take()`
     Nested(Box<NestedSession>),
@@ -861,6 +866,44 @@ macro_rules! check_claim_on {
     };
 }
 
+/// validate_claim registration: the claim object only NAMES the claim, so the registered claim types are handed over as
+/// `X::default()` every other time (the idiom for "a validator for sub"), otherwise as a value-carrying claim
+macro_rules! validate_claim_on {
+    ($p:expr, $c:expr, $extra:expr) => {
+        match $c {
+            Claim::Iss(_) if ctor_turn() % 2 == 1 => {
+                $p.validate_claim(IssuerClaim::default(), $extra);
+                Ok(())
+            }
+            Claim::Sub(_) if ctor_turn() % 2 == 1 => {
+                $p.validate_claim(SubjectClaim::default(), $extra);
+                Ok(())
+            }
+            Claim::Aud(_) if ctor_turn() % 2 == 1 => {
+                $p.validate_claim(AudienceClaim::default(), $extra);
+                Ok(())
+            }
+            Claim::Jti(_) if ctor_turn() % 2 == 1 => {
+                $p.validate_claim(TokenIdentifierClaim::default(), $extra);
+                Ok(())
+            }
+            Claim::Exp(_) if ctor_turn() % 2 == 1 => {
+                $p.validate_claim(ExpirationClaim::default(), $extra);
+                Ok(())
+            }
+            Claim::Nbf(_) if ctor_turn() % 2 == 1 => {
+                $p.validate_claim(NotBeforeClaim::default(), $extra);
+                Ok(())
+            }
+            Claim::Iat(_) if ctor_turn() % 2 == 1 => {
+                $p.validate_claim(IssuedAtClaim::default(), $extra);
+                Ok(())
+            }
+            other => check_claim_on!($p, other, validate_claim, $extra),
+        }
+    };
+}
+
 /// error type unifying "could not even construct the claim/key" with the library's own errors
 pub enum HErr<E> {
     Lib(E),
@@ -1002,7 +1045,7 @@ macro_rules! impl_proto {
                                 if v.odd != 0 {
                                 p.validate_claim(OddClaim::new(v.claim.key(), v.odd), hv_for(v));
                             } else {
-                                check_claim_on!(p, &v.claim, validate_claim, hv_for(v))?;
+                                validate_claim_on!(p, &v.claim, hv_for(v))?;
                             }
                             }
                             VReg::ExtendOnly => {
@@ -1068,7 +1111,7 @@ macro_rules! impl_proto {
                         if v.odd != 0 {
                                 p.validate_claim(OddClaim::new(v.claim.key(), v.odd), hv_for(v));
                             } else {
-                                check_claim_on!(p, &v.claim, validate_claim, hv_for(v))?;
+                                validate_claim_on!(p, &v.claim, hv_for(v))?;
                             }
                     }
                     }
@@ -1420,6 +1463,17 @@ macro_rules! impl_proto {
                                         let one: &'static ParserCfg = Box::leak(Box::new(ParserCfg { validators: vec![v.clone()], ..Default::default() }));
                                         Self::configure_batteries(&mut p, one).map_err(HErr::ClaimCtor)?;
                                     }
+                                    PStep::CheckMany(cs) => {
+                                        let many: &'static ParserCfg = Box::leak(Box::new(ParserCfg { expected: cs.clone(), ..Default::default() }));
+                                        Self::configure_batteries(&mut p, many).map_err(HErr::ClaimCtor)?;
+                                    }
+                                    PStep::ValidateMany(vs) => {
+                                        for v in vs {
+                                            vtable_add(v);
+                                        }
+                                        let many: &'static ParserCfg = Box::leak(Box::new(ParserCfg { validators: vs.iter().cloned().map(|mut v| { v.reg = VReg::ValidateClaim; v }).collect(), ..Default::default() }));
+                                        Self::configure_batteries(&mut p, many).map_err(HErr::ClaimCtor)?;
+                                    }
                                     PStep::Nested(n) => run_nested(n),
                                     PStep::Parse { token, key } => {
                                         let k = &ks[*key % ks.len()];
@@ -1449,6 +1503,17 @@ macro_rules! impl_proto {
                                         vtable_add(v);
                                         let one: &'static ParserCfg = Box::leak(Box::new(ParserCfg { validators: vec![v.clone()], ..Default::default() }));
                                         Self::configure_generic(&mut p, one).map_err(HErr::ClaimCtor)?;
+                                    }
+                                    PStep::CheckMany(cs) => {
+                                        let many: &'static ParserCfg = Box::leak(Box::new(ParserCfg { expected: cs.clone(), expected_via_extend: true, ..Default::default() }));
+                                        Self::configure_generic(&mut p, many).map_err(HErr::ClaimCtor)?;
+                                    }
+                                    PStep::ValidateMany(vs) => {
+                                        for v in vs {
+                                            vtable_add(v);
+                                        }
+                                        let many: &'static ParserCfg = Box::leak(Box::new(ParserCfg { validators: vs.clone(), ..Default::default() }));
+                                        Self::configure_generic(&mut p, many).map_err(HErr::ClaimCtor)?;
                                     }
                                     PStep::Nested(n) => run_nested(n),
                                     PStep::Parse { token, key } => {
